@@ -28,6 +28,8 @@ mod lhs_masker;
 #[path = "/repo/harper-typst/src/offset_cursor.rs"]
 mod offset_cursor;
 
+#[path = "../c04_typst.rs"]
+mod c04_typst;
 #[path = "../c04_gen.rs"]
 mod c04_gen;
 use c04_gen::{build_file, Built};
@@ -622,6 +624,93 @@ fn corr_cursor(rep: &mut Report, text: &str, bytes: &[usize]) {
         };
         rep.case(&format!("K {pre} {a} {b} | {}", cps_str(text)), &line);
     }
+}
+
+/// Typst: the whole Typst::parse vs typst_parse of Model/C04Typst.v run on the abstract tree built from typst-syntax's
+/// AST (c04_typst.rs follows the translator's arms; PlainEnglish's tokens for every Text / Str text are the table).
+/// Monitors the range contract (tn_ok) and that a Text / Str node's text is the text of its range; oracle
+/// (C04_typst_exact on the implementation): the token list is the cursor-free expected list.
+fn corr_typst(rep: &mut Report, text: &str) {
+    use typst_syntax::ast::AstNode;
+    rep.eval();
+    let chars: Vec<char> = text.chars().collect();
+    let src = typst_syntax::Source::detached(text.to_string());
+    let tree = guarded(|| {
+        let markup = typst_syntax::ast::Markup::from_untyped(src.root())?;
+        let b = c04_typst::Builder { doc: &src };
+        Some(b.seq(markup.exprs().collect()))
+    });
+    let Ok(Some(top)) = tree else {
+        rep.count("typst:tree_builder_failed");
+        return;
+    };
+    let root = c04_typst::TN::Group(top);
+    let imp = guarded(|| harper_typst::Typst.parse(&chars));
+    let mut ints: Vec<u64> = vec![];
+    c04_typst::ser(&root, &mut ints);
+    let mut texts: Vec<String> = vec![];
+    c04_typst::lexed_texts(&root, &mut texts);
+    texts.sort();
+    texts.dedup();
+    let mut ent = String::new();
+    for t in &texts {
+        use harper_core::parsers::StrParser;
+        let toks = PlainEnglish.parse_str(t);
+        ent.push_str(" | ");
+        ent.push_str(&cps_str(t));
+        ent.push_str(" ;");
+        for k in &toks {
+            ent.push_str(&format!(" {} {} {}", k.span.start, k.span.end, kind_code(&k.kind)));
+        }
+    }
+    let line = match &imp {
+        Ok(t) => toks_line(t),
+        Err(_) => "P".into(),
+    };
+    rep.case(&format!("U {} | {}{}", cps_str(text), ints.iter().map(|x| x.to_string()).collect::<Vec<_>>().join(" "), ent), line.trim());
+    let (mut range_ok, mut text_ok) = (true, true);
+    c04_typst::contract(text, 0, &root, &mut range_ok, &mut text_ok);
+    rep.monitor("typst_trees_checked", 1);
+    if !range_ok {
+        rep.monitor("typst_range_contract_violated", 1);
+    }
+    if !text_ok {
+        rep.monitor("typst_node_text_differs_from_range", 1);
+    }
+    let mut exp: Vec<(usize, usize, u64)> = vec![];
+    let e = c04_typst::expected(text, &root, &mut exp, &kind_code);
+    let inp = json!({"kind":"typst","text":text});
+    match (&imp, e) {
+        (Ok(t), Some(())) => {
+            let got: Vec<(usize, usize, u64)> = t.iter().map(|k| (k.span.start, k.span.end, kind_code(&k.kind))).collect();
+            if got != exp && range_ok {
+                let i = got.iter().zip(exp.iter()).position(|(x, y)| x != y).unwrap_or(got.len().min(exp.len()));
+                let show = |v: &Vec<(usize, usize, u64)>| v.get(i).map(|(a, b, k)| format!("[{a},{b}) kind {k} {:?}", chars.get(*a..(*b).min(chars.len())).map(|c| c.iter().collect::<String>()))).unwrap_or("nothing".into());
+                fail_limited(rep, "typst_token_mislocated", format!("typst: token #{i} is {}, the node it came from is at {}", show(&got), show(&exp)), inp);
+            } else if text.len() != chars.len() && !exp.is_empty() {
+                rep.nontrivial(&("typst", text));
+            }
+        }
+        (Err(m), Some(())) if range_ok => fail_limited(rep, "typst_panic", format!("Typst::parse panicked on a tree that satisfies the range contract: {m} at {}", last_panic_location()), inp),
+        _ => rep.count("typst:out_of_contract_or_unwrap"),
+    }
+    let has_str = ints.len() > 0 && texts.iter().any(|t| t.contains('\\'));
+    rep.count(&format!("typst:{}", if has_str { "string_with_escape" } else if texts.is_empty() { "no_prose" } else { "prose" }));
+}
+
+fn typst_text(r: &mut Rng) -> String {
+    let mut s = String::new();
+    for _ in 0..r.range(1, 9) {
+        s.push_str(r.s(&[
+            "river stone ", "é 値 😀 ", "= Heading\n", "- item\n", "+ enum\n", "/ Term: desc\n", "\n", "\n\n", "*bold é* ", "_emph_ ", "`raw é` ", "$x^2 é$ ",
+            "https://a.b/c ", "#let x = \"na\\\"ïve \\n river\" ", "#text(\"ключ \\u{1F600} stone\") ", "#let (a, _, ..b) = (1, 2, 3) ", "#let f(x, y: \"é\") = x ",
+            "#figure(caption: [the *river* é]) ", "#image(\"é.png\", alt: \"stone é\") ", "#raw(\"é\", lang: \"rs\") ", "#rgb(\"#ff00é\") ", "#a.b.c ", "#x.display(\"é\") ",
+            "#set text(font: \"é\", size: 1pt) ", "#show heading: it => [é #it] ", "#if x { \"é a\" } else [b é] ", "#for i in (1, 2) [é #i] ", "#while false { } ",
+            "#(a: \"é\", \"k\": 2, ..c) ", "#context [é] ", "#{ let y = \"é \\\\ z\"; y } ", "'quote' \"dq\" ", "a \\ b ", "#let", "#", "#(", "\\u{e9} ", "<label> @ref ", "#bibliography(\"é.bib\", style: \"é\") ",
+            "#cite(<é>, style: \"é\") ", "#(x) = 1 ", "#((a, b) => a + \"é\") ", "#let g(..args) = args ",
+        ]));
+    }
+    s
 }
 
 /// Markdown: the event stream of pulldown-cmark (same options as Markdown::parse) abstracted to the model's events;
@@ -1400,6 +1489,7 @@ pub fn replay_input(rep: &mut Report, v: &Value, dict: &Arc<FstDictionary>) {
             corr_lines(rep, w, &text, v["inner"].as_str().unwrap_or("synth"));
         }
         "lhs" => corr_lhs(rep, &text),
+        "typst" => corr_typst(rep, &text),
         "wrap" => corr_wrappers(rep, v["fe"].as_str().unwrap_or("c:rust"), &text, dict),
         "javadoc" => {
             corr_javadoc(rep, &text);
@@ -1453,6 +1543,9 @@ pub fn replay_input(rep: &mut Report, v: &Value, dict: &Arc<FstDictionary>) {
             }
             if fe == "gitcommit" {
                 corr_misc(rep, &text);
+            }
+            if fe == "typst" {
+                corr_typst(rep, &text);
             }
             if fe.starts_with("markdown") || fe == "gitcommit" {
                 corr_markdown(rep, &text, fe == "markdown-ilt");
@@ -1568,6 +1661,16 @@ pub fn run(a: &Args, corpus: &[Value]) {
             bytes = bytes.into_iter().map(|b| (0..=b.min(n)).rev().find(|i| t.is_char_boundary(*i)).unwrap_or(0)).collect();
         }
         corr_cursor(&mut rep, &t, &bytes);
+    }
+    // G'. the whole Typst translator over typst-syntax's AST
+    for i in 0..a.scale(1200, 15000) {
+        let t = match i % 3 {
+            0 => build_file("typst", &mut r).text,
+            1 => typst_text(&mut r),
+            _ => frontends::embed("typst", &mut r),
+        };
+        let t = if t.chars().count() > 600 { t.chars().take(600).collect() } else { t };
+        corr_typst(&mut rep, &t);
     }
     // H. Markdown event streams: constructed files + the shared embed() generator + a malformed stream
     for i in 0..a.scale(400, 8000) {
